@@ -201,7 +201,7 @@ class Chain(SubCheck):
     def bounds(self, tier):
         sh = self.shapes(tier)
         return ("%d shapes: V <= %d diploid variants in <= 2 phase sets (every assignment), R <= %d reads (R <= 2 for V = 4) each covering a non-empty subset of one phase set's variants (every multiset of such reads); "
-                "symbolic: original phased alleles, haplotype of every read, every quality in 1..3, which variants are unphased in the second input, one variant optionally homozygous"
+                "symbolic: original phased alleles, haplotype of every read, every quality in 1..3, which variants are unphased in the second input, one variant optionally homozygous (any for V <= 2, the last one otherwise)"
                 % (len(sh), max(s["V"] for s in sh), max(len(s["reads"]) for s in sh)))
 
     def setup(self):
@@ -243,7 +243,7 @@ class Chain(SubCheck):
         positions = [10 * (i + 1) + i for i in range(V)]  # 0-based
         block = {ps: min(positions[i] for i in range(V) if psidx[i] == ps) + 1 for ps in set(psidx)}
         phases = [list(e.choice("phase%d" % i, [(0, 1), (1, 0)])) for i in range(V)]
-        hom = e.choice("hom", [None] + list(range(V)))
+        hom = e.choice("hom", [None] + (list(range(V)) if V <= 2 else [V - 1]))
         if len(set(psidx)) > 1:
             e.cover("two phase sets")
         if hom is not None:
